@@ -565,7 +565,24 @@ func (r *ruleState) specRegistration(req *ReqRec, cands []cand, taus []int64) {
 			return
 		}
 	}
-	r.specFail(req, props, fmt.Sprintf("no state seen by the request explains the reply (registration %q); states: %s", cbId, describePromise(cands, leaf)))
+	// name the history: the known read-then-insert race (the promise left pending between the
+	// request's read and its guarded insert) is one thing, anything else another
+	hist := "unexplained"
+	for _, tr := range req.Txs {
+		if !tr.Committed || tr.Pre == nil {
+			continue
+		}
+		for _, c := range tr.Tx.Commands {
+			if c.Kind == t_aio.CreateCallback {
+				if row := tr.Pre.Promises[leaf]; row != nil && row.State != 1 && status == t_api.StatusOK && pbody != nil && pbody.State == promise.Pending {
+					hist = "stale pending reply, promise completed before the guarded insert"
+				} else if row != nil && row.State == 1 && tr.Pre.Callbacks[cbId] == nil {
+					hist = "insert refused although the promise was pending and unregistered"
+				}
+			}
+		}
+	}
+	r.s.violate("spec."+req.Req.Kind.String(), props, req.Req.Kind.String(), fmt.Sprintf("status=%d %s", req.Status(), hist), fmt.Sprintf("%s: request %s = %s; response %v; no state seen by the request explains the reply (registration %q); states: %s", req.Tag, req.Req.Kind, req.Req, req.Res, cbId, describePromise(cands, leaf)))
 }
 
 // ------------------------------------------------------------------ schedules
